@@ -367,7 +367,16 @@ P3:
       };
     } else if (IsEnd(m)) {
       pi[to.s] := [pi[to.s] EXCEPT !.stopped = TRUE, !.stops = @ + 1];
-      ch := "x";
+      \* re-entrant scenarios: being stopped, this source may make a sibling that has not greeted yet
+      \* greet at once (members that are linked to each other)
+      if (CFG.reentrant /\ \E q \in 1..Len(pi) : pi[q].pending) {
+        with (c \in {"none"} \cup {"kickgreet " \o IName(q) : q \in {q2 \in 1..Len(pi) : pi[q2].pending}}) {
+          script := LogS(script, <<"onstop", IName(to.s), c>>);
+          ch := c;
+        };
+      } else {
+        ch := "x";
+      };
     } else {
       ch := "x";
     };
@@ -387,6 +396,8 @@ T1a:
     } else if (ch = "defer") {
       pi[to.s].deferred := pi[to.s].deferred + 1;
       obs := LogO(obs, Ev("note", ThOf(self), "", IName(to.s), "defer", 0));
+    } else if (\E q \in 1..Len(pi) : ch = "kickgreet " \o IName(q)) {
+      call PupTop(CHOOSE q \in 1..Len(pi) : ch = "kickgreet " \o IName(q), "greet");
     };
 T2:
     goto Ret;
@@ -1743,10 +1754,15 @@ DDisp(self) == /\ pc[self] = "DDisp"
                                                            /\ pi' = pi
                                                       ELSE /\ IF IsEnd(m[self])
                                                                  THEN /\ pi' = [pi EXCEPT ![to[self].s] = [pi[to[self].s] EXCEPT !.stopped = TRUE, !.stops = @ + 1]]
-                                                                      /\ ch' = [ch EXCEPT ![self] = "x"]
+                                                                      /\ IF CFG.reentrant /\ \E q \in 1..Len(pi') : pi'[q].pending
+                                                                            THEN /\ \E c \in {"none"} \cup {"kickgreet " \o IName(q) : q \in {q2 \in 1..Len(pi') : pi'[q2].pending}}:
+                                                                                      /\ script' = LogS(script, <<"onstop", IName(to[self].s), c>>)
+                                                                                      /\ ch' = [ch EXCEPT ![self] = c]
+                                                                            ELSE /\ ch' = [ch EXCEPT ![self] = "x"]
+                                                                                 /\ UNCHANGED script
                                                                  ELSE /\ ch' = [ch EXCEPT ![self] = "x"]
-                                                                      /\ pi' = pi
-                                                           /\ UNCHANGED script
+                                                                      /\ UNCHANGED << pi, 
+                                                                                      script >>
                                                 /\ pc' = [pc EXCEPT ![self] = "T1"]
                                                 /\ UNCHANGED << st, nd, sk, fi, 
                                                                 tasks, obs, 
@@ -3330,7 +3346,7 @@ DDisp(self) == /\ pc[self] = "DDisp"
                                                                                                                                                                                                                                      sx, 
                                                                                                                                                                                                                                      ch >>
                                                                                                                                                                                                      ELSE /\ Assert(FALSE, 
-                                                                                                                                                                                                                    "Failure of assertion at line 1194, column 5.")
+                                                                                                                                                                                                                    "Failure of assertion at line 1205, column 5.")
                                                                                                                                                                                                           /\ pc' = [pc EXCEPT ![self] = "Ret"]
                                                                                                                                                                                                           /\ UNCHANGED << st, 
                                                                                                                                                                                                                           tasks, 
@@ -3461,7 +3477,7 @@ T1(self) == /\ pc[self] = "T1"
                                                                    ex        |->  ex[self] ] >>
                                                                \o stack[self]]
                        /\ pc' = [pc EXCEPT ![self] = "E0"]
-                       /\ UNCHANGED << pi, obs, nx, fx >>
+                       /\ UNCHANGED << pi, obs, nx, fx, tx, ta, tc >>
                   ELSE /\ IF ch[self] = "dataend"
                              THEN /\ /\ ex' = [ex EXCEPT ![self] = to[self].s]
                                      /\ stack' = [stack EXCEPT ![self] = << [ procedure |->  "Emit",
@@ -3469,7 +3485,7 @@ T1(self) == /\ pc[self] = "T1"
                                                                               ex        |->  ex[self] ] >>
                                                                           \o stack[self]]
                                   /\ pc' = [pc EXCEPT ![self] = "E0"]
-                                  /\ UNCHANGED << pi, obs, nx, fx >>
+                                  /\ UNCHANGED << pi, obs, nx, fx, tx, ta, tc >>
                              ELSE /\ IF ch[self] = "end"
                                         THEN /\ /\ nx' = [nx EXCEPT ![self] = to[self].s]
                                                 /\ stack' = [stack EXCEPT ![self] = << [ procedure |->  "EndP",
@@ -3477,7 +3493,8 @@ T1(self) == /\ pc[self] = "T1"
                                                                                          nx        |->  nx[self] ] >>
                                                                                      \o stack[self]]
                                              /\ pc' = [pc EXCEPT ![self] = "N0"]
-                                             /\ UNCHANGED << pi, obs, fx >>
+                                             /\ UNCHANGED << pi, obs, fx, tx, 
+                                                             ta, tc >>
                                         ELSE /\ IF ch[self] = "err"
                                                    THEN /\ /\ fx' = [fx EXCEPT ![self] = to[self].s]
                                                            /\ stack' = [stack EXCEPT ![self] = << [ procedure |->  "FailP",
@@ -3486,22 +3503,42 @@ T1(self) == /\ pc[self] = "T1"
                                                                                                 \o stack[self]]
                                                         /\ pc' = [pc EXCEPT ![self] = "F0"]
                                                         /\ UNCHANGED << pi, 
-                                                                        obs >>
+                                                                        obs, 
+                                                                        tx, ta, 
+                                                                        tc >>
                                                    ELSE /\ IF ch[self] = "defer"
                                                               THEN /\ pi' = [pi EXCEPT ![to[self].s].deferred = pi[to[self].s].deferred + 1]
                                                                    /\ obs' = LogO(obs, Ev("note", ThOf(self), "", IName(to[self].s), "defer", 0))
-                                                              ELSE /\ TRUE
+                                                                   /\ pc' = [pc EXCEPT ![self] = "T2"]
+                                                                   /\ UNCHANGED << stack, 
+                                                                                   tx, 
+                                                                                   ta, 
+                                                                                   tc >>
+                                                              ELSE /\ IF \E q \in 1..Len(pi) : ch[self] = "kickgreet " \o IName(q)
+                                                                         THEN /\ /\ stack' = [stack EXCEPT ![self] = << [ procedure |->  "PupTop",
+                                                                                                                          pc        |->  "T2",
+                                                                                                                          tc        |->  tc[self],
+                                                                                                                          tx        |->  tx[self],
+                                                                                                                          ta        |->  ta[self] ] >>
+                                                                                                                      \o stack[self]]
+                                                                                 /\ ta' = [ta EXCEPT ![self] = "greet"]
+                                                                                 /\ tx' = [tx EXCEPT ![self] = CHOOSE q \in 1..Len(pi) : ch[self] = "kickgreet " \o IName(q)]
+                                                                              /\ tc' = [tc EXCEPT ![self] = ""]
+                                                                              /\ pc' = [pc EXCEPT ![self] = "PT0"]
+                                                                         ELSE /\ pc' = [pc EXCEPT ![self] = "T2"]
+                                                                              /\ UNCHANGED << stack, 
+                                                                                              tx, 
+                                                                                              ta, 
+                                                                                              tc >>
                                                                    /\ UNCHANGED << pi, 
                                                                                    obs >>
-                                                        /\ pc' = [pc EXCEPT ![self] = "T2"]
-                                                        /\ UNCHANGED << stack, 
-                                                                        fx >>
+                                                        /\ fx' = fx
                                              /\ nx' = nx
                                   /\ ex' = ex
             /\ UNCHANGED << ci, st, nd, sk, fi, tasks, now, script, ntop, 
                             panicked, started, mon, done, fr, to, m, lg, sx, 
-                            jx, ch, lv, snap, ka, ca, gx, bx, bc, tx, ta, tc, 
-                            ft, act, sj, tk >>
+                            jx, ch, lv, snap, ka, ca, gx, bx, bc, ft, act, sj, 
+                            tk >>
 
 T1a(self) == /\ pc[self] = "T1a"
              /\ IF PupLive(to[self].s)
